@@ -195,16 +195,50 @@ theorem rollback_primary_effect (s s' : Store) (keys : List Bytes) (T : TS) (e :
           have hst : c.startTS = T := by simpa using List.find?_some hc
           exact ⟨c, hmem, hst, by simpa using hv⟩
 
+/-- a commit batch that contains the primary while the primary carries no lock of the transaction either changes
+    nothing or found the primary already committed -/
+theorem commit_primary_nolock (s s' : Store) (keys : List Bytes) (T C : TS) (e : Option KErr)
+    (h : Mvcc.commit s keys T C = (s', e)) (p : Bytes) (hp : p ∈ keys)
+    (hnl : ∀ l, (getEntry s.kv p).lock = some l → l.startTS ≠ T) :
+    s'.kv = s.kv ∨ ∃ C', HasData (getEntry s.kv p) T C' := by
+  simp only [Mvcc.commit] at h
+  cases hloop : commitLoop s keys T C [] with
+  | error er => rw [hloop] at h; injection h with h1 _; subst h1; exact Or.inl rfl
+  | ok acts =>
+    right
+    obtain ⟨a, hka⟩ := commitLoop_ok_all _ _ _ _ _ _ hloop p hp
+    simp only [commitKey] at hka
+    have hf : Option.filter (fun x => x.startTS == T) (getEntry s.kv p).lock = none := by
+      cases hl : (getEntry s.kv p).lock with
+      | none => rfl
+      | some l => simp [Option.filter, hnl l hl]
+    rw [hf] at hka
+    simp only [] at hka
+    cases hc : txnCommitInfo (getEntry s.kv p).writes T with
+    | none => rw [hc] at hka; cases hka
+    | some c =>
+      rw [hc] at hka
+      simp only [] at hka
+      split at hka
+      · rename_i hv
+        have hmem := List.mem_of_find?_eq_some hc
+        have hst : c.startTS = T := by simpa using List.find?_some hc
+        exact ⟨c.commitTS, c, hmem, hst, by simpa using hv, rfl⟩
+      · cases hka
+
 /-! ### the discipline, the invariant, and its preservation by every command -/
 
 /-- what the owner and every resolver of transaction `T` (primary key `p`) must respect, stated on the store state the
-    command meets: a commit of `T` at `C` is only sent when the primary is already committed at `C`, or in the batch
-    that commits the primary's prewrite lock itself; a rollback of `T` only when the primary is already rolled back, or
+    command meets: a commit of `T` at `C` is only sent when the primary is already committed at `C`, or in a batch
+    that contains the primary itself (whose lock, if still there, is a prewrite lock, and which is not committed at
+    another ts: the batch then commits the primary too, or — the primary having been rolled back meanwhile — fails
+    as a whole); a rollback of `T` only when the primary is already rolled back, or
     on/with the primary itself -/
 def Disc (T : TS) (p : Bytes) (s : Store) : Cmd → Prop
   | .commit keys T' C => T' = T →
       HasData (getEntry s.kv p) T C ∨
-        (p ∈ keys ∧ ∃ l, (getEntry s.kv p).lock = some l ∧ l.startTS = T ∧ l.op ≠ .pessimisticLock)
+        (p ∈ keys ∧ (∀ l, (getEntry s.kv p).lock = some l → l.startTS = T → l.op ≠ .pessimisticLock) ∧
+          ∀ C', HasData (getEntry s.kv p) T C' → C' = C)
   | .rollback keys T' => T' = T → HasRb (getEntry s.kv p) T ∨ p ∈ keys
   | .cleanup k T' _ => T' = T → HasRb (getEntry s.kv p) T ∨ k = p
   | .status k T' _ _ _ _ => T' = T → HasRb (getEntry s.kv p) T ∨ k = p
@@ -256,18 +290,30 @@ theorem Atomic_step (T : TS) (p : Bytes) (s : Store) (c : Cmd) (hs : SInv s) (ho
         simp only [Cmd.labels, reduceCtorEq, false_or, KLabel.commit.injEq] at hlabk
         obtain ⟨hkin, hT, hC⟩ := hlabk
         subst hT; subst hC
-        rcases hd rfl with hD | ⟨hpin, l, hl, hlT, hop⟩
+        rcases hd rfl with hD | ⟨hpin, hpess, huniq⟩
         · exact keepD _ hD
-        · rcases commit_primary_effect s (Mvcc.commit s keys T C).1 keys T C (Mvcc.commit s keys T C).2 hs hok.1 rfl p hpin l hl hlT with hsame | heff
-          · have hk' : getEntry (Cmd.run s (Cmd.commit keys T C)).kv k = getEntry s.kv k := by
+        · have hsameCase : (Mvcc.commit s keys T C).1.kv = s.kv → HasData (getEntry (Cmd.run s (Cmd.commit keys T C)).kv p) T C := by
+            intro hsame
+            have hk' : getEntry (Cmd.run s (Cmd.commit keys T C)).kv k = getEntry s.kv k := by
               show getEntry (Mvcc.commit s keys T C).1.kv k = _; rw [hsame]
             have hp' : getEntry (Cmd.run s (Cmd.commit keys T C)).kv p = getEntry s.kv p := by
               show getEntry (Mvcc.commit s keys T C).1.kv p = _; rw [hsame]
             rw [hk'] at hdk; rw [hp']; exact ha.1 k _ hdk
-          · show HasData (getEntry (Mvcc.commit s keys T C).1.kv p) T C
-            rw [heff]
-            exact (KStep.commit l p T C hl hlT hok.2).commit_makes_data (fun l' hl' => by
-              rw [hl] at hl'; injection hl' with hl'; subst hl'; exact hop)
+          by_cases hlock : ∃ l, (getEntry s.kv p).lock = some l ∧ l.startTS = T
+          · obtain ⟨l, hl, hlT⟩ := hlock
+            rcases commit_primary_effect s (Mvcc.commit s keys T C).1 keys T C (Mvcc.commit s keys T C).2 hs hok.1 rfl p hpin l hl hlT with hsame | heff
+            · exact hsameCase hsame
+            · show HasData (getEntry (Mvcc.commit s keys T C).1.kv p) T C
+              rw [heff]
+              exact (KStep.commit l p T C hl hlT hok.2).commit_makes_data (fun l' hl' => by
+                rw [hl] at hl'; injection hl' with hl'; subst hl'; exact hpess l hl hlT)
+          · have hnl : ∀ l, (getEntry s.kv p).lock = some l → l.startTS ≠ T :=
+              fun l hl hT => hlock ⟨l, hl, hT⟩
+            rcases commit_primary_nolock s (Mvcc.commit s keys T C).1 keys T C (Mvcc.commit s keys T C).2 rfl p hpin hnl with hsame | ⟨C', hD'⟩
+            · exact hsameCase hsame
+            · have := huniq C' hD'
+              subst this
+              exact keepD _ hD'
       | resolve a b T' C' =>
         simp only [Cmd.labels, reduceCtorEq, false_or, KLabel.commit.injEq, and_false, or_false] at hlabk
         obtain ⟨_, hpos, hT, hC⟩ := hlabk
